@@ -27,6 +27,7 @@ CS0(proto) ==
    acs |-> <<>>, zones |-> <<>>, version |-> <<>>,
    cmds |-> <<>>,                      \* pending public commands
    refresh |-> <<>>, errreq |-> {},    \* explained internal frames that are due
+   pendrx |-> <<>>, laterx |-> <<>>,    \* frames fed and not yet handed to subscribers (current / ended connections)
    nstall |-> 0, stale |-> <<>>,                     \* refresh requests of an earlier connection that the socket may still hold
    hbDl |-> 0, hbPrev |-> -1, beatDl |-> 0, beaten |-> FALSE, pollDl |-> 0, pollPrev |-> -1, polled |-> FALSE, causes |-> 0,
    subs |-> <<>>,                      \* active subscriptions [who, target, kind]
@@ -243,7 +244,7 @@ Callback(cs, ev) ==
 -----------------------------------------------------------------------------
 (* frames fed by the console *)
 
-RxFrame(cs, ev) ==
+Consume(cs, ev) ==
   LET rd  == ev.alts[1]
       m   == rd.msg
       ans == AnsKind(cs.proto, m, rd.hdr.to_address)
@@ -280,15 +281,38 @@ RxFrame(cs, ev) ==
           ELSE cs
      ELSE cs
 
+\* A frame the console sent takes effect when the socket hands it to its subscribers (the `deliver`
+\* event of the script's own message subscriber): a frame still in the receive buffer when the
+\* connection ends never reaches the API layer.  What takes effect is the REFERENCE reading of the
+\* bytes fed, not what the decoder delivered.
+RxFrame(cs, ev) == [cs EXCEPT !.pendrx = Append(@, ev)]
+
+SameRd(a, b) == TLCFP(a) = TLCFP(b)
+RxMatch(f, rd) == f.soft \/ \E a \in 1..Len(f.alts) : SameRd(f.alts[a], rd)
+DropAtK(q, k) == SubSeq(q, 1, k - 1) \o SubSeq(q, k + 1, Len(q))
+DeliverApi(cs, ev) ==
+  IF cs.pendrx # <<>> /\ RxMatch(Head(cs.pendrx), ev.rd)
+  THEN Consume([cs EXCEPT !.pendrx = Tail(@)], Head(cs.pendrx))
+  ELSE LET ks == {k \in 1..Len(cs.laterx) : RxMatch(cs.laterx[k], ev.rd)}
+       IN IF ks # {} THEN Consume([cs EXCEPT !.laterx = DropAtK(@, Min(ks))], cs.laterx[Min(ks)])
+          ELSE IF cs.pendrx # <<>> THEN Consume([cs EXCEPT !.pendrx = Tail(@)], Head(cs.pendrx))   \* (a misread frame: C13 / C05 judge that)
+          ELSE cs
+\* the connection ended: frames not yet handed over may still surface from the old read loop, or never
+EndRx(cs) == [cs EXCEPT !.laterx = (IF Len(@) > 4 THEN <<>> ELSE @) \o cs.pendrx, !.pendrx = <<>>]
+
 -----------------------------------------------------------------------------
 (* frames written by the client: every one must be explained *)
+
+CMD_LIFE == 30000      \* lifetime of RETRY_IDEMPOTENT / RETRY_NON_IDEMPOTENT messages
 
 HeartbeatDue(cs) == cs.phase = "ready" /\ cs.now = cs.beatDl /\ ~cs.beaten
 PollDue(cs) == cs.proto = "at4" /\ cs.phase = "ready" /\ (cs.now = cs.pollDl \/ cs.now = cs.pollPrev) /\ ~cs.polled
 
 \* a command whose frame content is undetermined (exp.any) explains a frame only while the call is in
 \* progress; a determined command also explains a later frame (queued while the link was down)
+\* (C02: nothing is written at or after its lifetime - an expired command explains no frame)
 CmdIdx(cs, alts) == {i \in 1..Len(cs.cmds) : cs.cmds[i].sent \in {0, 2} /\ ~Eq(cs.cmds[i].exp.reject, TRUE)
+                                             /\ cs.now < cs.cmds[i].t + CMD_LIFE
                                              /\ (~cs.cmds[i].done \/ ~Eq(cs.cmds[i].exp.any, TRUE))
                                              /\ \E a \in 1..Len(alts) : CmdMatches(cs.cmds[i].exp, alts[a])}
 
@@ -307,17 +331,24 @@ TxFrame(cs, ev) ==
       ci   == CmdIdx(cs, ev.alts)
   IN IF hsOK THEN [cs EXCEPT !.step = @ + 1]
      ELSE IF cs.refresh # <<>> /\ kind = Head(cs.refresh) THEN [cs EXCEPT !.refresh = Tail(@)]
-     ELSE IF \E i \in 1..Len(cs.stale) : cs.stale[i] = kind
-          THEN [cs EXCEPT !.stale = DropFirst(@, kind)]
+     \* (refresh requests live 1 s - RETRY_CONNECTED: an older one explains nothing)
+     ELSE IF \E i \in 1..Len(cs.stale) : cs.stale[i].k = kind /\ cs.now < cs.stale[i].t + 1000
+          THEN LET i == Min({j \in 1..Len(cs.stale) : cs.stale[j].k = kind /\ cs.now < cs.stale[j].t + 1000})
+               IN [cs EXCEPT !.stale = SubSeq(@, 1, i - 1) \o SubSeq(@, i + 1, Len(@))]
      ELSE IF cs.refresh # <<>> /\ cs.phase = "ready" /\ kind \in {"acstatus", "zonestatus"}
           THEN CV([cs EXCEPT !.refresh = SelectSeq(@, LAMBDA x : x # kind)], "RefreshOrder")
      ELSE IF kind = "errreq" /\ s.ac_number \in cs.errreq THEN [cs EXCEPT !.errreq = @ \ {s.ac_number}]
-     ELSE IF ci # {} THEN [cs EXCEPT !.cmds[Min(ci)].sent = 1, !.cmds[Min(ci)].ss = cs.nstall > 0]
+     ELSE IF ci # {}
+          THEN \* among calls that read the same, the frame belongs to one whose message is still alive
+               LET j == Min(ci)
+               IN [cs EXCEPT !.cmds[j].sent = 1, !.cmds[j].ss = cs.nstall > 0]
      ELSE IF kind = "version" /\ cs.phase = "ready"
           THEN IF HeartbeatDue(cs) THEN [cs EXCEPT !.beaten = TRUE]
                ELSE CV(cs, "HeartbeatOffSchedule")
      ELSE IF kind = "zonestatus" /\ cs.proto = "at4" /\ cs.phase = "ready"
-          THEN IF PollDue(cs) THEN [cs EXCEPT !.polled = TRUE] ELSE CV(cs, "PollOffSchedule")
+          THEN IF cs.now = cs.pollDl /\ ~cs.polled THEN [cs EXCEPT !.polled = TRUE]
+               ELSE IF cs.now = cs.pollPrev THEN [cs EXCEPT !.pollPrev = -1]    \* the deadline a simultaneous report replaced
+               ELSE CV(cs, "PollOffSchedule")
      ELSE IF cs.phase = "init" /\ kind \in {"version", "names", "ability", "acstatus", "timer", "zonestatus"}
           THEN CV(cs, "HandshakeOrder")
      ELSE IF kind = "command" /\ \E i \in 1..Len(cs.cmds) : cs.cmds[i].sent = 0 /\ ~Eq(cs.cmds[i].exp.reject, TRUE)
@@ -338,7 +369,11 @@ TargetNum(t) == t   \* kept symbolic: ApiModel receives the numeric id in ev.tn
 CallApi(cs, ev) ==
   CASE ev.method = "init" ->
          [cs EXCEPT !.phase = "init", !.answered = 0, !.step = 0, !.t0 = cs.now, !.initId = ev.id, !.initRet = "none",
-                    !.acs = <<>>, !.zones = <<>>, !.version = <<>>, !.refresh = <<>>, !.stale = <<>>, !.errreq = {}, !.cmds = <<>>,
+                    !.acs = <<>>, !.zones = <<>>, !.version = <<>>, !.refresh = <<>>, !.stale = <<>>, !.errreq = {},
+                    \* commands accepted in an earlier life that the socket may still hold (SocketContract:
+                    \* StaleHeld): they may explain a frame, they are no longer owed
+                    !.cmds = [i \in 1..Len(SelectSeq(cs.cmds, LAMBDA c : c.sent = 0 /\ Eq(c.exp.reject, FALSE))) |->
+                                [SelectSeq(cs.cmds, LAMBDA c : c.sent = 0 /\ Eq(c.exp.reject, FALSE))[i] EXCEPT !.stale = TRUE, !.done = TRUE]],
                     !.subs = SelectSeq(@, LAMBDA x : x.kind = "airtouch"), !.steady = FALSE]
     [] ev.method = "shutdown" ->
          [Settle(cs) EXCEPT !.phase = "closing", !.everShut = TRUE, !.steady = FALSE, !.refresh = <<>>, !.errreq = {}]
@@ -352,7 +387,7 @@ CallApi(cs, ev) ==
              ex == IF cs.phase # "ready" \/ (ev.tk = "ac" /\ ai = {}) \/ (ev.tk = "zone" /\ zi = {})
                    THEN [reject |-> "ANY", msgs |-> <<>>, nonidem |-> FALSE, any |-> TRUE]
                    ELSE Expect(cs.proto, ev, a, z)
-         IN [cs EXCEPT !.cmds = Append(@, [id |-> ev.id, exp |-> ex, sent |-> 0, done |-> FALSE, ss |-> FALSE])]
+         IN [cs EXCEPT !.cmds = Append(@, [id |-> ev.id, exp |-> ex, sent |-> 0, done |-> FALSE, ss |-> FALSE, t |-> cs.now, stale |-> FALSE])]
     [] OTHER -> cs
 
 RetApi(cs, ev) ==
@@ -433,12 +468,17 @@ Quiesce(cs0) ==
       \* C04/C11: an accepted command has produced its single frame
       c3 == IF cs.up /\ cs.phase = "ready" /\ \E i \in 1..Len(cs.cmds) :
                    cs.cmds[i].done /\ Eq(cs.cmds[i].exp.reject, FALSE) /\ ~Eq(cs.cmds[i].exp.any, TRUE) /\ cs.cmds[i].sent = 0
+                   \* a command accepted while the link was down is held for CMD_LIFE only (C02): owed while alive
+                   /\ cs.now < cs.cmds[i].t + CMD_LIFE /\ ~cs.cmds[i].stale
             THEN CV(c2, "CommandNotSent") ELSE c2
       \* C14: refresh after reconnection, error details requested
       c4 == IF cs.up /\ cs.phase = "ready" /\ cs.refresh # <<>> THEN CV(c3, "RefreshMissing") ELSE c3
       \* C08 / C14: the periodic duties that fall due at this very instant
       c7 == Due(c4)
   IN c7
+
+\* refresh requests issued for the connection that began at upSince and not yet seen on the wire
+StaleOf(cs) == SelectSeq(cs.stale, LAMBDA x : cs.now < x.t + 1000) \o [i \in 1..Len(cs.refresh) |-> [k |-> cs.refresh[i], t |-> cs.upSince]]
 
 \* the client closed the connection with no external cause: only a heartbeat timeout justifies it
 ClientClose(cs) ==
@@ -447,10 +487,10 @@ ClientClose(cs) ==
                  ELSE IF cs.now = cs.hbPrev THEN cs
                  ELSE CV(cs, "SpuriousHeartbeatReset")
             ELSE cs
-  IN [c1 EXCEPT !.up = FALSE, !.steady = FALSE, !.refresh = <<>>, !.stale = @ \o cs.refresh]
+  IN EndRx([c1 EXCEPT !.up = FALSE, !.steady = FALSE, !.refresh = <<>>, !.stale = StaleOf(cs)])
 
 ConnOk(cs) ==
-  [cs EXCEPT !.up = TRUE, !.upSince = cs.now, !.causes = 0, !.stale = @ \o cs.refresh,
+  [cs EXCEPT !.up = TRUE, !.upSince = cs.now, !.causes = 0, !.stale = StaleOf(cs),
              !.refresh = IF cs.phase = "ready" THEN <<"acstatus", "zonestatus">> ELSE <<>>]
 
 CStep(cs0, ev) ==
@@ -460,10 +500,12 @@ CStep(cs0, ev) ==
        [] k = "retapi"    -> RetApi(cs, ev)
        [] k = "txframe"   -> TxFrame(cs, ev)
        [] k = "rxframe"   -> RxFrame(cs, ev)
+       [] k = "deliver"   -> DeliverApi(cs, ev)
        [] k = "connok"    -> ConnOk(cs)
        [] k = "cclose"    -> ClientClose(cs)
-       [] k \in {"lost", "peereof", "rxdefect", "fault"} -> [cs EXCEPT !.causes = @ + 1, !.steady = FALSE,
-                                                                    !.up = IF k \in {"lost"} THEN FALSE ELSE @]
+       [] k \in {"lost", "peereof", "rxdefect", "fault"} ->
+            LET c1 == [cs EXCEPT !.causes = @ + 1, !.steady = FALSE, !.up = IF k \in {"lost"} THEN FALSE ELSE @]
+            IN IF k = "lost" THEN EndRx(c1) ELSE c1
        \* a stalled connection (full send buffer) that ends takes the buffered frames with it: a command
        \* handed over during the stall MAY be sent again (sent = 2), it is not owed again
        [] k = "stall"     -> [cs EXCEPT !.nstall = @ + 1]
